@@ -44,6 +44,7 @@ type report struct {
 	labelSet map[string]bool
 	assumptions map[string]bool
 	slowest float64
+	replayer string
 }
 
 func newReport(pd *PropDef, tier string, seed int64) *report {
@@ -206,9 +207,8 @@ func (r *report) replayAll(work string) {
 	if len(files) == 0 {
 		return
 	}
-	bin, err := buildReplayer(r.pd, work)
-	if err != nil {
-		r.incon = append(r.incon, err.Error())
+	bin := r.replayer
+	if bin == "" {
 		return
 	}
 	// batches keep the command line short
@@ -254,29 +254,10 @@ func (r *report) replayAll(work string) {
 	}
 }
 
-// conformance runs up to n jobs concretely in the engine and natively and compares outcomes.
-func (r *report) conformance(pd *PropDef, jobs []sym.Job, n int, seed int64, workers int, work string) {
-	if len(jobs) == 0 {
-		return
-	}
-	bin, err := buildReplayer(pd, work)
-	if err != nil {
-		r.incon = append(r.incon, "conformance: "+err.Error())
-		return
-	}
-	// run r uses job r % len(jobs) with seed seed+r
-	var sel []sym.Job
-	for i := 0; i < n; i++ {
-		j := jobs[i%len(jobs)]
-		sd := uint64(seed) + uint64(i)
-		j.Seed = &sd
-		j.ID = fmt.Sprintf("%s#seed%d", j.ID, sd)
-		sel = append(sel, j)
-	}
-	sum := runWorkers(pd, sel, workers, "z3", 10000, work, "-conf")
-	for _, f := range sum.fatal {
-		r.incon = append(r.incon, "conformance fatal: "+f)
-	}
+// conformance compares concrete engine runs (already executed by the workers) with native runs.
+func (r *report) conformance(sel []sym.Job, results []*sym.JobResult, work string) {
+	bin := r.replayer
+	sum := &runSummary{results: results}
 	jf := filepath.Join(work, "conf-jobs.json")
 	jb, _ := json.Marshal(sel)
 	os.WriteFile(jf, jb, 0o644)
